@@ -587,13 +587,13 @@ pub fn run_property(prop: &Property, opts: &RunOpts) -> (Value, Vec<Failure>, Ve
                 });
                 match result {
                     Ok(()) => {}
-                    Err(TestError::Fail(_reason, words)) => {
+                    Err(TestError::Fail(reason, words)) => {
                         // second-stage shrink with our own delta debugger (cheap, often helps)
                         let words =
                             shrink_tape(sc.run, words, false, &opts.known, opts.tier, 2000);
                         let (r, vcx, _) =
                             exec_once(sc.run, &words, false, true, &opts.known, opts.tier);
-                        let message = r.err().unwrap_or_else(|| "failure did not reproduce on the shrunk tape".into());
+                        let message = r.err().unwrap_or_else(|| format!("{} [schedule-dependent: did not reproduce on re-execution of the same tape]", reason));
                         let path = write_replay(
                             &opts.replay_dir,
                             prop.id,
